@@ -392,7 +392,7 @@ func genSerial(t *rapid.T) Serial {
 
 func TestSerialisers(t *testing.T) {
 	pbt.Run(t, pbt.Sub[Serial]{
-		Name: "serialisers", Quick: 12000, Thorough: 250000,
+		Name: "serialisers", Quick: 9000, Thorough: 150000,
 		Gen:      genSerial,
 		Check:    checkSerial,
 		EnumDesc: "VarInt(n).Bytes() for every n in 0..300 and the class edges: the caller appends 300 bytes to the result and overwrites all of its capacity, then all of 0..300 are encoded again; BytesWithClearedInputs(0, script) for every script length 0..300 on a two-input transaction, followed by the same re-encoding and by the sweep transactions",
